@@ -2,6 +2,8 @@ package c24
 
 import (
 	"fmt"
+	"google.golang.org/protobuf/proto"
+	"google.golang.org/protobuf/reflect/protoregistry"
 	"os"
 	"path/filepath"
 	"runtime/debug"
@@ -57,7 +59,7 @@ func checkFuzzText(c fzCase) error {
 	if anyDeeperThan(mcase.Desc(c.Type), tc.M, 4) {
 		return nil // generator: Any nested 2 deep; the reference normaliser decodes every level again and again
 	}
-	if anyPayloadHasUnknown(mcase.Desc(c.Type), tc.M) {
+	if anyPayloadHasUnknownR(m) {
 		// generator: the property speaks of content without unknown fields, and that includes the
 		// payload of an Any (the expanded text form cannot write fields its type does not declare)
 		return nil
@@ -69,6 +71,60 @@ func checkFuzzText(c fzCase) error {
 		return fmt.Errorf("input text %q parsed into %s: %w", clip(c.Text), c.Type, err)
 	}
 	return nil
+}
+
+// anyPayloadHasUnknownR walks the decoded message: for every google.protobuf.Any whose type (the
+// name after the last slash, or the whole URL) is linked, the payload is decoded; unknown fields in
+// it (at any depth, nested Any payloads included), or a payload that does not decode, put the case
+// outside the round-trip domain.
+func anyPayloadHasUnknownR(m protoreflect.Message) bool {
+	found := false
+	var walk func(m protoreflect.Message, inPayload bool)
+	walk = func(m protoreflect.Message, inPayload bool) {
+		if found {
+			return
+		}
+		if inPayload && len(m.GetUnknown()) > 0 {
+			found = true
+			return
+		}
+		if m.Descriptor().FullName() == "google.protobuf.Any" {
+			url := m.Get(m.Descriptor().Fields().ByNumber(1)).String()
+			val := m.Get(m.Descriptor().Fields().ByNumber(2)).Bytes()
+			name := url
+			if i := strings.LastIndexByte(url, '/'); i >= 0 {
+				name = url[i+1:]
+			}
+			if mt, err := protoregistry.GlobalTypes.FindMessageByName(protoreflect.FullName(name)); err == nil {
+				p := mt.New()
+				if err := (proto.UnmarshalOptions{AllowPartial: true}).Unmarshal(val, p.Interface()); err != nil {
+					found = true
+					return
+				}
+				walk(p, true)
+			}
+			return
+		}
+		m.Range(func(fd protoreflect.FieldDescriptor, v protoreflect.Value) bool {
+			switch {
+			case fd.IsMap():
+				if fd.MapValue().Message() != nil {
+					v.Map().Range(func(_ protoreflect.MapKey, e protoreflect.Value) bool { walk(e.Message(), inPayload); return !found })
+				}
+			case fd.IsList():
+				if fd.Message() != nil {
+					for i := 0; i < v.List().Len() && !found; i++ {
+						walk(v.List().Get(i).Message(), inPayload)
+					}
+				}
+			case fd.Message() != nil:
+				walk(v.Message(), inPayload)
+			}
+			return !found
+		})
+	}
+	walk(m, false)
+	return found
 }
 
 // hasUnknownDeep reports whether m or any message below it holds unknown fields.
